@@ -106,7 +106,8 @@ def run_property(pid, tier="quick", seed=0):
             fails = [f for f in r["failures"] if f["fn"] == full and (not f["tags"] or pid in f["tags"])]
             if o.get("kinds") == "safety":
                 # totality properties (C15/C16): only panics / overflow / non-termination count, not functional clauses
-                fails = [f for f in fails if is_safety(f["msg"])]
+                # ... plus functional clauses tagged explicitly with this property (premises of its termination argument)
+                fails = [f for f in fails if is_safety(f["msg"]) or pid in f["tags"]]
             elif o.get("kinds") == "functional":
                 fails = [f for f in fails if not is_safety(f["msg"])]
             # a failure inside this fn attributed by tag to *other* properties only is not ours
